@@ -669,9 +669,27 @@ impl ConfigActor {
     ///
     /// 将配置中心数据写入 raft snapshot文件中
     ///
+    /// The value as the applied log entries left it: a temporary value (a routed publish whose log
+    /// entry has not been applied here yet) is not part of the state machine.
+    fn applied_value(value: &ConfigValue) -> Option<ConfigValue> {
+        if !value.tmp {
+            return Some(value.clone());
+        }
+        let last = value.histories.last()?;
+        let mut applied = value.clone();
+        applied.content = last.content.clone();
+        applied.md5 = Arc::new(get_md5(&last.content));
+        applied.tmp = false;
+        Some(applied)
+    }
+
     fn build_snapshot(&self, writer: Addr<SnapshotWriterActor>) -> anyhow::Result<()> {
         for (key, value) in &self.cache {
-            let value_db: ConfigValueDO = value.clone().into();
+            let value = match Self::applied_value(value) {
+                Some(v) => v,
+                None => continue,
+            };
+            let value_db: ConfigValueDO = value.into();
             let record = SnapshotRecordDto {
                 tree: CONFIG_TREE_NAME.clone(),
                 key: key.build_key().as_bytes().to_vec(),
